@@ -120,3 +120,91 @@ pub fn frame(body: &[u8]) -> Vec<u8> {
     v.extend_from_slice(body);
     v
 }
+
+// ---------------------------------------------------------- generic views
+
+#[derive(Clone, Debug, PartialEq, Eq)]
+pub struct Rec {
+    pub section: u8, // 1 answer, 2 authority, 3 additional
+    pub owner: String,
+    pub rtype: Rtype,
+    pub class: Class,
+    pub ttl: u32,
+    pub rdata: String,
+}
+
+#[derive(Clone, Debug)]
+pub struct View {
+    pub id: u16,
+    pub qr: bool,
+    pub aa: bool,
+    pub tc: bool,
+    pub rd: bool,
+    pub ra: bool,
+    pub ad: bool,
+    pub cd: bool,
+    pub rcode: Rcode,
+    pub questions: Vec<(String, Rtype, Class)>,
+    pub recs: Vec<Rec>,
+    /// (udp payload size, DO, version) if an OPT record is present.
+    pub opt: Option<(u16, bool, u8)>,
+}
+
+/// Full structural view of a message; `None` if any part fails to parse.
+pub fn view(bytes: &[u8]) -> Option<View> {
+    use domain::rdata::AllRecordData;
+    let msg = Message::from_octets(bytes).ok()?;
+    let h = msg.header();
+    let mut questions = Vec::new();
+    for q in msg.question() {
+        let q = q.ok()?;
+        questions.push((format!("{}", q.qname()), q.qtype(), q.qclass()));
+    }
+    let mut recs = Vec::new();
+    let mut opt = None;
+    let mut sec = msg.answer().ok()?;
+    let mut section = 1u8;
+    loop {
+        for rr in &mut sec {
+            let rr = rr.ok()?;
+            if rr.rtype() == Rtype::OPT {
+                if let Some(o) = msg.opt() {
+                    opt = Some((o.udp_payload_size(), o.dnssec_ok(), o.version()));
+                }
+                continue;
+            }
+            let owner = format!("{}", rr.owner()).to_ascii_lowercase();
+            let (rtype, class, ttl) = (rr.rtype(), rr.class(), rr.ttl().as_secs());
+            let rec = rr.into_record::<AllRecordData<_, domain::base::ParsedName<_>>>().ok()??;
+            recs.push(Rec {
+                section,
+                owner,
+                rtype,
+                class,
+                ttl,
+                rdata: format!("{}", rec.data()),
+            });
+        }
+        match sec.next_section().ok()? {
+            Some(s) => {
+                sec = s;
+                section += 1;
+            }
+            None => break,
+        }
+    }
+    Some(View {
+        id: h.id(),
+        qr: h.qr(),
+        aa: h.aa(),
+        tc: h.tc(),
+        rd: h.rd(),
+        ra: h.ra(),
+        ad: h.ad(),
+        cd: h.cd(),
+        rcode: h.rcode(),
+        questions,
+        recs,
+        opt,
+    })
+}
